@@ -410,6 +410,7 @@ func (rs *rowStore) iterate(ctx context.Context, outFields core.Fields, includeM
 	}
 	rs.iterationsInProgress[fs.filename]++
 	rs.mx.Unlock()
+	verifPause("iterate.captured:" + rs.t.Name)
 	defer func() {
 		rs.mx.Lock()
 		rs.iterationsInProgress[fs.filename]--
